@@ -307,8 +307,10 @@ def agg_spec(rng: random.Random, name: str, maxlen: int = 8) -> dict:
         else:
             spec["raw"] = True
             pool = {"exact": RAW_EXACT, "unorderable": RAW_UNORDERABLE, "nan": RAW_NAN}[cls]
-            spec["srcs"] = [raw_seq(rng, pool, maxlen)]
-            spec["fns"] = [rng.choice([None, None, "ident"])]
+            spec["srcs"] = [raw_seq(rng, pool, maxlen if rng.random() < 0.7 else 1)]
+            # keys that are not defined for every item (-"a", None // 2) or fail outright: the builtin calls the
+            # key for EVERY item, also for the only one, and fails the same way
+            spec["fns"] = [rng.choice([None, None, "ident", "neg", "half", "failkey"])]
         r = rng.random()
         if r < 0.3 or (not spec["srcs"][0] and r < 0.7):
             spec["params"]["default"] = rng.choice([["item", 1, "default"], ["raw", ["L", 5]], ["none"]])
@@ -340,8 +342,8 @@ def agg_spec(rng: random.Random, name: str, maxlen: int = 8) -> dict:
             spec["fns"] = [rng.choice(KEYS)]
         else:
             spec["raw"] = True
-            spec["srcs"] = [raw_seq(rng, {"unorderable": RAW_UNORDERABLE, "nan": RAW_NAN}[cls], maxlen)]
-            spec["fns"] = [rng.choice([None, None, "ident"])]
+            spec["srcs"] = [raw_seq(rng, {"unorderable": RAW_UNORDERABLE, "nan": RAW_NAN}[cls], maxlen if rng.random() < 0.7 else 1)]
+            spec["fns"] = [rng.choice([None, None, "ident", "neg", "half", "failkey"])]
         if rng.random() < 0.5:
             spec["params"]["reverse"] = True
         return spec
@@ -367,8 +369,8 @@ def agg_spec(rng: random.Random, name: str, maxlen: int = 8) -> dict:
             spec["fns"] = [rng.choice(KEYS)]
         else:
             spec["raw"] = True
-            spec["srcs"] = [raw_seq(rng, RAW_UNORDERABLE, maxlen)]
-            spec["fns"] = [None]
+            spec["srcs"] = [raw_seq(rng, RAW_UNORDERABLE, maxlen if rng.random() < 0.7 else 1)]
+            spec["fns"] = [rng.choice([None, None, "neg", "half", "failkey"])]
         spec["params"]["n"] = rng.randint(0, len(spec["srcs"][0]) + 2)
         return spec
     raise ValueError(name)
